@@ -57,7 +57,7 @@ def sampler_config(draw, kinds=ALL_KINDS, bounds="maybe", max_d=4, temps=(1.0, 1
         cfg["target"] = dict(kind=tk, d=d)
         if tk == "gauss":
             cfg["target"]["mu"] = [draw(st.sampled_from([0.0, 0.0, 3.0, -20.0])) for _ in range(d)]
-            cfg["target"]["s"] = [draw(st.sampled_from([1.0, 1.0, 0.1, 10.0])) for _ in range(d)]
+            cfg["target"]["s"] = [draw(st.sampled_from([1.0, 1.0, 0.1, 10.0, 1e-4])) for _ in range(d)]
         cfg["bounds"] = None
         scale = 1.0
     wf = draw(st.sampled_from([1.0, 1.0, 0.3, 3.0] + ([1e3, 1e6] if extreme else [])))
@@ -87,6 +87,19 @@ def sampler_config(draw, kinds=ALL_KINDS, bounds="maybe", max_d=4, temps=(1.0, 1
         cfg["n_walkers"] = d + 1 + draw(st.integers(0, 4))
         knobs["max_attempts"] = draw(st.sampled_from([1, 2, 100]))
     cfg["knobs"] = knobs
+    if not bounded:
+        # special inputs the properties still quantify over: integer-typed start values, a start
+        # inside a zero-probability region
+        special = draw(st.sampled_from(["none", "none", "none", "none", "int_start", "zero_prob_start"]))
+        if special == "int_start" and cfg["target"]["kind"] in ("gauss", "laplace", "corrgauss"):
+            cfg["int_start"] = True
+        elif special == "zero_prob_start" and cfg["target"]["kind"] == "moat" and kind != "ensemble":
+            cfg["zero_prob_start"] = True
+            # (the Gibbs-family constructor means to reject such a start but only builds the exception; a NaN
+            # acceptance probability then poisons the width adaptation at its next check - keep that check out of
+            # reach so that the unchanged library stays well-defined on these histories)
+            knobs["chk_int"] = 10 ** 9
+            knobs["max_tries"] = 10 ** 9
     if gibbs_limits and kind in ("gibbs", "metropolis") and draw(st.integers(0, 2)) == 0:
         # limits set on the chain right after construction (relative to the start point, applied by Harnessed)
         lim = []
@@ -177,12 +190,27 @@ def make_inputs(cfg):
                 ok = (sd > 0).all() and (np.abs(np.triu(np.corrcoef(X.T), k=1)) < 0.99).all()
             if ok:
                 break
+        if cfg.get("int_start"):
+            Xi = np.rint(3.0 * X).astype(np.int64)
+            if d == 1:
+                okc = np.unique(Xi).size > 1
+            else:
+                sd = Xi.std(axis=0)
+                okc = (sd > 0).all() and (np.abs(np.triu(np.corrcoef(Xi.T), k=1)) < 0.99).all()
+            if okc:
+                X = Xi
         out["start"] = X
     else:
         x0 = tg.draw(g, 1.0)
         if cfg["bounds"] is None and cfg["target"]["kind"] not in ("gamma", "moat"):
             x0 = x0 + 0.0
         out["start"] = np.array(x0, dtype=float)
+        if cfg.get("zero_prob_start"):
+            out["start"][0] = 0.5 * (tg.a + tg.b)  # inside the moat: log-density -inf
+        if cfg.get("int_start"):
+            r = np.rint(out["start"]).astype(np.int64)
+            r[r == 0] = 1  # (a zero start value makes the default widths / finite differences degenerate)
+            out["start"] = r
     out["widths"] = np.array(cfg["widths"], dtype=float)
     if cfg.get("bounds") is not None and cfg.get("bounds_as_object"):
         out["bounds_obj"] = _fresh_bounds(cfg)
@@ -239,13 +267,33 @@ def _budgeted(h, n_steps, fn):
         c.eval_budgets[h.target.tag] = None
 
 
+def _dead_chain(h, op, e):
+    """HamiltonianChain's give-up error is legitimate for a hopeless step size, but not when the
+    tuning state itself has become NaN: such a chain can never take a step again."""
+    eps = getattr(getattr(h.chain, "ES", None), "epsilon", None)
+    try:
+        bad = eps is not None and not np.isfinite(float(eps))
+    except Exception:  # noqa
+        bad = False
+    if bad:
+        raise LibRaised(op, ValueError("the chain gave up ('%s') and its step size is now %r: no further step is possible"
+                                       % (HMC_STEP_FAIL, eps))) from e
+    raise e
+
+
 def op_step(h):
-    _budgeted(h, 1, lambda: lib_call("take_step", _guard_hmc, h.chain.take_step))
+    try:
+        _budgeted(h, 1, lambda: lib_call("take_step", _guard_hmc, h.chain.take_step))
+    except StepExhausted as e:
+        _dead_chain(h, "take_step", e)
 
 
 def op_advance(h, m):
     per = h.n_walkers if h.is_ensemble else 1
-    _budgeted(h, m * per, lambda: lib_call("advance(%d)" % m, _guard_hmc, h.chain.advance, m))
+    try:
+        _budgeted(h, m * per, lambda: lib_call("advance(%d)" % m, _guard_hmc, h.chain.advance, m))
+    except StepExhausted as e:
+        _dead_chain(h, "advance(%d)" % m, e)
 
 
 def runaway_violation(h, op, exc):
